@@ -303,11 +303,12 @@ func c14EvalCLI(env *Env, c *Case) []Violation {
 	orig := goFiles(init)
 	sorted := c.SortedFiles()
 	type soloRes struct {
-		final  []byte
-		print  []byte
-		stderr string
-		exit   int
-		ok     bool
+		final    []byte
+		print    []byte
+		stderr   string
+		exit     int
+		ok       bool
+		printErr string
 	}
 	solo := map[string]soloRes{}
 	for _, f := range sorted {
@@ -328,7 +329,7 @@ func c14EvalCLI(env *Env, c *Case) []Violation {
 			env.Probe("solo-run-did-not-exit")
 			return nil
 		}
-		sr := soloRes{print: r2.Stdout, stderr: string(r1.Stderr), exit: r1.Exit, ok: true}
+		sr := soloRes{print: r2.Stdout, stderr: string(r1.Stderr), exit: r1.Exit, ok: true, printErr: string(r2.Stderr)}
 		if st := FindState(r1.Final, f.Path); st != nil {
 			sr.final = st.Data
 		}
@@ -396,6 +397,15 @@ func c14EvalCLI(env *Env, c *Case) []Violation {
 			if printMode {
 				tag = "print"
 			}
+			if printMode && len(gc.Targets) == len(c.Targets) && gc.Targets[0] != "." && gc.Targets[0] != "./..." {
+				// what stderr says about a file (descriptions, diagnostics) is the same as when it is alone
+				for _, f := range sorted {
+					rel := strings.TrimPrefix(f.Path, ProjDir+"/")
+					if g, w := linesAbout(string(r.Stderr), rel, f.Path), linesAbout(solo[f.Path].printErr, rel, f.Path); g != w {
+						add("grouped-vs-solo", "stderr/"+f.Role, fmt.Sprintf("stderr lines about %s differ between the grouped run (args %v) and the solo run:\n grouped: %q\n solo:    %q", f.Path, gc.Spec.Args, clip(g, 300), clip(w, 300)))
+					}
+				}
+			}
 			if printMode {
 				if !bytes.Equal(r.Stdout, wantPrint.Bytes()) {
 					// which file differs?
@@ -444,6 +454,20 @@ func c14EvalCLI(env *Env, c *Case) []Violation {
 		env.Stats.Sample(map[string]interface{}{"harness": "cli", "args": c.Spec.Args, "files": c.Files, "variants": variants}, 2)
 	}
 	return vs
+}
+
+// linesAbout returns the sorted stderr lines that mention a file.
+func linesAbout(stderr, rel, abs string) string {
+	var out []string
+	for _, l := range strings.Split(stderr, "\n") {
+		// description lines have the form <path>:<text>; diagnostics of several
+		// files may share one line and are compared elsewhere
+		if strings.HasPrefix(l, rel+":") || strings.HasPrefix(l, abs+":") {
+			out = append(out, l)
+		}
+	}
+	sort.Strings(out)
+	return strings.Join(out, "\n")
 }
 
 func rolesOf(c *Case, p string) string {
